@@ -106,12 +106,12 @@ class SignCtx:
     # -- structure -----------------------------------------------------------------------------------
     def signs(self, t, depth=0):
         key = t.get_id()
-        r = self.cache.get(key)
-        if r is not None:
-            return r
+        hit = self.cache.get(key)
+        if hit is not None:
+            return hit[1]
         r = self._signs(t, depth)
         if r != ALL:
-            self.cache[key] = r
+            self.cache[key] = (t, r)       # the term is kept alive with its entry: z3 reuses the ids of collected terms
         return r
 
     def _signs(self, t, depth):
